@@ -173,6 +173,60 @@ def if_chain_programs():
     return progs
 
 
+def empty_branch_programs():
+    """a taken branch ends the chain also when its body is empty (or only a comment): no later condition is evaluated and no
+    later branch or `else` runs"""
+    progs = []
+    bodies = {"full": None, "empty": "{}", "comment": "{\n    # nothing\n}", "blank": "{\n\n}", "semicolon": "{ ; }"}
+    for bits in itertools.product([False, True], repeat=3):
+        for has_else in (False, True):
+            for which in range(3):
+                for style in ("empty", "comment", "blank", "semicolon"):
+                    b = ["true" if x else "false" for x in bits]
+                    parts = []
+                    for i in range(3):
+                        body = bodies[style] if i == which else f'{{\n    print("b{i + 1}")\n}}'
+                        parts.append(f'{"if" if i == 0 else "else if"} t("c{i + 1}", {b[i]}) {body}')
+                    src = PRELUDE + " ".join(parts)
+                    src += ' else {\n    print("else")\n}\n' if has_else else "\n"
+                    src += 'print("end")\n'
+                    out = ["start"]
+                    taken = False
+                    for i, x in enumerate(bits):
+                        out.append(f"c{i + 1}")
+                        if x:
+                            if i != which:
+                                out.append(f"b{i + 1}")
+                            taken = True
+                            break
+                    if not taken and has_else:
+                        out.append("else")
+                    out.append("end")
+                    progs.append((src, "".join(l + "\n" for l in out), "0"))
+    # an empty `else`, an empty loop body, an empty function body, an empty bare block: nothing happens, the rest runs
+    progs.append((PRELUDE + 'if t("c1", false) {\n    print("b1")\n} else {}\nprint("end")\n', "start\nc1\nend\n", "0"))
+    progs.append((PRELUDE + 'for [i, v] in [1, 2] {}\nwhile t("w", false) {}\n{}\nfn e() {}\nprint(e())\nprint("end")\n',
+                  "start\nw\n<null>\nend\n", "0"))
+    progs.append((PRELUDE + 'for [i, v] in [1, 2, 3] {\n    if v == 1 {} else if v == 2 {\n        break\n    }\n    print(v)\n}\nprint("end")\n',
+                  "start\n1\nend\n", "0"))
+    return progs
+
+
+def kept_pair_programs():
+    """`for` binds a pair of its own in every iteration: pairs (and closures over them) kept past their iteration keep their
+    values and are distinct lists"""
+    ps = []
+    ps.append(("keep := []\nfor p in [\"a\", \"b\", \"c\"] {\n    keep += [p]\n}\nprint(keep)\nprint(keep[0] === keep[1])\nkeep[0][1] = \"z\"\nprint(keep[1])\n",
+               "[\n    [\n        0,\n        a,\n    ],\n    [\n        1,\n        b,\n    ],\n    [\n        2,\n        c,\n    ],\n]\nfalse\n[\n    1,\n    b,\n]\n"))
+    ps.append(("fs := []\nfor p in {\"x\": 1, \"y\": 2} {\n    fs += [fn() { return p; }]\n}\nfor [_, f] in fs {\n    print(f()[0])\n    print(f()[1])\n}\n",
+               "x\n1\ny\n2\n"))
+    ps.append(("last := null\nhave := false\nfor p in \"ab\" {\n    if have {\n        print(last[1])\n    }\n    last = p\n    have = true\n}\nprint(last)\n",
+               "a\n[\n    1,\n    b,\n]\n"))
+    ps.append(("keep := []\nfor [i, v] in [[1], [2]] {\n    keep += [v]\n}\nkeep[0][0] = 9\nprint(keep[1][0])\n", "2\n"))
+    ps.append(("first := null\nhave := false\nfor p in 5 .. 8 {\n    if have == false {\n        first = p\n        have = true\n    }\n}\nprint(first[0] + first[1])\n", "5\n"))
+    return [(s, o, "0") for s, o in ps]
+
+
 def mutation_programs():
     """loop bodies that mutate the iterated container: `for` walks a snapshot taken at entry"""
     ps = []
@@ -216,6 +270,8 @@ def run(ctx, model_ok):
                 cases.append(((chain, j),) + program(chain, j))
     extra = [(("if", i), s, o, st) for i, (s, o, st) in enumerate(if_chain_programs())]
     extra += [(("mut", i), s, o, st) for i, (s, o, st) in enumerate(mutation_programs())]
+    extra += [(("empty", i), s, o, st) for i, (s, o, st) in enumerate(empty_branch_programs())]
+    extra += [(("kept", i), s, o, st) for i, (s, o, st) in enumerate(kept_pair_programs())]
     extra += [(("top", i), s, o, st) for i, (s, o, st) in enumerate(toplevel_jump_programs())]
     ctx.cov["exhaustive"] = True
     for label, cs in (("jump_nest", cases), ("fixed", extra)):
